@@ -9,6 +9,7 @@ mod readercheck;
 mod refcpr;
 mod refdec;
 mod total;
+mod tracker;
 
 #[global_allocator]
 static GLOBAL: total::CountingAlloc = total::CountingAlloc;
@@ -43,6 +44,7 @@ fn main() {
             "C03" => accept::replay_c03(&v),
             "C05" => cprcheck::replay_c05(&v),
             "C19" => readercheck::replay_c19(&v),
+            "C12" | "C13" | "C14" | "C15" => tracker::replay(pid, &v),
             "C04" | "C06" | "C07" | "C08" | "C09" | "C10" => decoder::replay(pid, &v),
             _ => usage(),
         };
@@ -65,6 +67,7 @@ fn main() {
         "C08" => decoder::run_c08(&ctx),
         "C09" => decoder::run_c09(&ctx),
         "C10" => decoder::run_c10(&ctx),
+        "C12" | "C13" | "C14" | "C15" => tracker::run(&ctx, pid),
         "C19" => readercheck::run_c19(&mut ctx),
         _ => usage(),
     }
